@@ -19,7 +19,7 @@ function probe(k){ var t = __probe(k); if (t !== undefined) throw t; }
   var O = Object, gOPN = O.getOwnPropertyNames, gOPS = O.getOwnPropertySymbols, gOPD = O.getOwnPropertyDescriptor,
       gPO = O.getPrototypeOf, defP = O.defineProperty, fts = Function.prototype.toString, ots = O.prototype.toString,
       isArr = Array.isArray, G = globalThis, ieval = eval, JS = JSON.stringify, JP = JSON.parse, is = O.is;
-  var OP = O.prototype, AP = Array.prototype, MP = Map.prototype, SP = Set.prototype;
+  var OP = O.prototype, AP = Array.prototype, MP = Map.prototype, SP = Set.prototype, UP = Uint8Array.prototype;
   var mapForEach = MP.forEach, setForEach = SP.forEach, mapSet = MP.set, setAdd = SP.add, call = Function.prototype.call;
   var wk = [[Symbol.iterator,'iterator'],[Symbol.toPrimitive,'toPrimitive'],[Symbol.toStringTag,'toStringTag'],[Symbol.hasInstance,'hasInstance'],[Symbol.asyncIterator,'asyncIterator']];
   var dataNames = {d0:1,d1:1,a0:1,o0:1,m0:1,s0:1};
@@ -39,6 +39,7 @@ function probe(k){ var t = __probe(k); if (t !== undefined) throw t; }
     if (p === null) return 'N';
     if (p === MP) return 'M';
     if (p === SP) return 'S';
+    if (p === UP && ots.call(v) === '[object Uint8Array]') return 'U';
     return 'X';
   }
   function isObj(v){ return v !== null && (typeof v === 'object' || typeof v === 'function'); }
@@ -62,6 +63,7 @@ function probe(k){ var t = __probe(k); if (t !== undefined) throw t; }
       var k = kindOf(v), t;
       if (k === 'F') t = '{"t":"F","src":' + JS(fts.call(v)) + '}';
       else if (k === 'X') t = '{"t":"X","c":' + JS(typeof v === 'function' ? 'function' : ots.call(v)) + '}';
+      else if (k === 'U') { var us = '', ui; for (ui = 0; ui < v.length; ui++) us += (ui ? ',' : '') + v[ui]; t = '{"t":"U","e":[' + us + ']}'; }
       else {
         t = '{"t":"' + k + '"';
         var parts;
@@ -117,6 +119,7 @@ function probe(k){ var t = __probe(k); if (t !== undefined) throw t; }
       case 'N': objs.push(O.create(null)); break;
       case 'M': objs.push(new Map()); break;
       case 'S': objs.push(new Set()); break;
+      case 'U': objs.push(new Uint8Array(n.e)); break;
       default: objs.push({opaque: n.c}); break;
       }
     }
@@ -142,16 +145,47 @@ function probe(k){ var t = __probe(k); if (t !== undefined) throw t; }
       var o = objs[i], j;
       if (n.t === 'M') for (j = 0; j < n.e.length; j++) mapSet.call(o, unval(n.e[j][0]), unval(n.e[j][1]));
       if (n.t === 'S') for (j = 0; j < n.e.length; j++) setAdd.call(o, unval(n.e[j]));
+      if (n.t === 'U') continue;
       if (n.p) for (j = 0; j < n.p.length; j++) defProp(o, n.p[j]);
       if (n.t === 'A') o.length = n.len;
       if (n.x === 0) O.preventExtensions(o);
     }
     for (i = 0; i < d.g.length; i++) defProp(G, d.g[i]);
   }
+  // reuse(x): operations of built-ins that keep per-Runtime auxiliary state (cycle stacks, re-entrancy marks), applied to an
+  // object that survived the history; every result / error name is part of the battery log.
+  var bt = String.fromCharCode(96), tmpl = Function('x', 'return ' + bt + '${x}' + bt);
+  function reuse(x){
+    var r = [];
+    function t(f){
+      try { var v = f(); r.push(typeof v === 'string' ? v : isObj(v) ? ots.call(v) : typeof v + ':' + String(v)); }
+      catch (e) { r.push('!' + (isObj(e) ? e.name : typeof e)); }
+    }
+    var k = isObj(x) ? kindOf(x) : 'P';
+    if (k === 'A') {
+      t(function(){ return AP.join.call(x, '-'); }); t(function(){ return String(x); }); t(function(){ return '' + x; });
+      t(function(){ return tmpl(x); }); t(function(){ return [x, 5].join(';'); }); t(function(){ return x.toLocaleString(); });
+      t(function(){ return JS(x); }); t(function(){ return AP.slice.call(x).sort().length; });
+      t(function(){ var n = 0; AP.forEach.call(x, function(){ n++; }); return n; });
+    } else if (k === 'U') {
+      t(function(){ return x.join('-'); }); t(function(){ return String(x); }); t(function(){ return x.toLocaleString(); });
+      t(function(){ return JS(x); }); t(function(){ return UP.slice.call(x).sort().join(); });
+    } else if (k === 'M' || k === 'S') {
+      t(function(){ var n = ''; (k === 'M' ? mapForEach : setForEach).call(x, function(v, kk){ n += typeof v + typeof kk; }); return n; });
+      t(function(){ return x.size; }); t(function(){ return Array.from(x).length; }); t(function(){ return JS(x); });
+    } else if (k === 'O' || k === 'N') {
+      t(function(){ return '' + x; }); t(function(){ return tmpl(x); }); t(function(){ return x * 1; });
+      t(function(){ return JS(x); }); t(function(){ return O.keys(x).join(); });
+      t(function(){ return JS(O.assign({}, x)); }); t(function(){ return [x, x].join('+'); });
+    }
+    var out = '', i;
+    for (i = 0; i < r.length; i++) out += (i ? '|' : '') + r[i];
+    return out;
+  }
   var depth = 0;
   function rec(n){ depth = n; rec(n + 1); }
   return {
-    dump: dump, rebuild: rebuild,
+    dump: dump, rebuild: rebuild, reuse: reuse,
     stk: function(){ return new Error().stack; },
     stk2: function(){ return (function inner(){ try { return new Error().stack; } finally { depth = 0; } })(); },
     thr: function(){ throw new Error('x'); },
